@@ -21,10 +21,12 @@ META = dict(
     technique="bounded-exhaustive enumeration of (program with thresholds/Waits/Base changes, pause|hold interval at every tick) on the real Engine, judged against the engine's own clock tags",
     text="Every program of the corpus (Base s/min/h/L, thresholded Marks with several threshold values per unit, Wait durations "
          "that are and are not multiples of the tick, inside blocks and Watch scopes) runs alone and with one Pause/Unpause or "
-         "Hold/Unhold interval at every tick.  A thresholded instruction must not start while the scope clock the engine showed "
+         "Hold/Unhold interval at every tick (and, for the short programs, an overlapping Pause and Hold with the inner one "
+         "released first).  A thresholded instruction must not start while the scope clock the engine showed "
          "before that tick (Block Time inside a block, else Scope Time, or the accumulated volume for Base L), converted "
          "exactly to the Base unit, is below its threshold, and must start in the first running tick in which that clock has "
-         "reached it; the instruction after 'Wait: d' is first visited no earlier than d seconds after the Wait started and, "
+         "reached it; for top-level thresholds in time units the start is also compared with an independent lower bound "
+         "(ticks that were Running since the clock last restarted); the instruction after 'Wait: d' is first visited no earlier than d seconds after the Wait started and, "
          "when no non-running tick intervenes, no later than d plus one tick.",
     note="Clock values are read from the engine's tags at tick boundaries and compared exactly (Decimal of the printed value); "
          "1 microsecond tolerance on Wait; programs <= 3 statements (4 thorough); horizon 60 ticks.",
@@ -147,6 +149,16 @@ def judge(lines, run: Run, forced=False):
             Tn = T * UNIT_SECONDS[base] if base in UNIT_SECONDS else T
             if clock is None:
                 continue
+            if base in UNIT_SECONDS and li["parent"] is None and not run.obs[s]["pre_clocks"]["Block"]:
+                # independent lower bound: the scope clock of the run cannot have reached T unless that much time passed in
+                # ticks that were Running at one end at least, counted from the last reset of the clock (2 ticks of slack)
+                k0 = max([k for k in range(1, s + 1) if run.obs[k]["pre_clocks"]["Scope Time"] < run.obs[k - 1]["pre_clocks"]["Scope Time"]
+                          or run.obs[k]["pre_clocks"]["Scope Time"] == 0] + [0])
+                ref = Decimal(str(DT)) * sum(1 for k in range(k0, s) if "Running" in (run.obs[k]["pre_state"], run.obs[k]["state"]))
+                if ref + 2 * Decimal(str(DT)) < Tn:
+                    probs.append((f"C03:threshold-early:reference-clock:{base}",
+                                  f"{raw!r} started in tick {s}: since the scope clock last restarted (tick {k0}) only {ref} s passed in "
+                                  f"ticks that were Running, threshold {T} {base} (engine's Scope Time {clock})"))
             if clock < Tn:
                 probs.append((f"C03:threshold-early:{base}:{'block' if run.obs[s]['pre_clocks']['Block'] else 'scope'}",
                               f"{raw!r} started in tick {s} although the clock before that tick was {clock} {cu} < threshold {T} {base}"))
@@ -227,6 +239,20 @@ def explore(item):
                     for s, w in probs:
                         out.append((s + ":" + cmd.lower(), w, {"lines": lines, "schedule": [[t, list(q)] for t, q in sched]}))
                     r.cleanup()
+    if with_intervals and len(lines) <= 3:
+        # a Pause and a Hold that overlap, the inner one released first (both nestings)
+        for a in range(1, min(last, HORIZON - 24)):
+            for outer, inner in (("Pause", "Hold"), ("Hold", "Pause")):
+                sched = ((a, ("user", outer)), (a + 1, ("user", inner)), (a + 2, ("user", "Un" + inner.lower())),
+                         (a + 8, ("user", "Un" + outer.lower())))
+                r = drive(lines, sched)
+                probs, judged = judge(lines, r)
+                stats["exec"] += 1
+                stats["judged"] += judged
+                stats["with_interval"] += 1
+                for s, w in probs:
+                    out.append((s + f":{outer.lower()}+{inner.lower()}", w, {"lines": lines, "schedule": [[t, list(q)] for t, q in sched]}))
+                r.cleanup()
     seen, uniq = set(), []
     for s, w, c in out:
         if s not in seen:
